@@ -428,14 +428,31 @@ def UOut.value (o : UOut K) (F : K → K) (x : K) : K :=
     | none => x
   o.mul * F x'
 
-/-- the `out=` fix-up of `__array_ufunc__`: when an `out` array was given (in-place operators pass
-    the left operand) and the rule returned a coefficient `mul ≠ 1`, the raw buffer is scaled,
-    `multiply(out_func, mul, out=out_func)` — a plain ndarray operation that does not re-enter the
-    dispatcher (since fix 8405e15; before it `multiply(out, mul, out=out)` dispatched on the out
-    array's stale unit and could recurse without end).  `some f`: the buffer was multiplied by `f`;
-    `none` would be non-termination. -/
-def outFixup (_pre : Prefixes K) (_t : Lut K) (_oldUnit : UnitV K) (mul : K) : Except Err (Option K) :=
-  if mul == 1 then .ok (some 1) else .ok (some mul)
+/-- the `out=` fix-up of `__array_ufunc__` (`if mul != 1: multiply(<buffer>, mul, out=<buffer>)`), with the
+    dispatcher re-entry made explicit.  `reenters = false`: the buffer is the raw view `out_func`; the
+    multiplication is a plain ndarray operation.  `reenters = true`: the buffer is the unyt array `out`, still
+    labelled with its *old* unit, so `multiply` enters `__array_ufunc__` again with operands `(out, mul)`: that
+    inner call multiplies the data by `mul`, computes `_multiply_units(oldUnit, dimensionless) = (mul', _)` and
+    runs the same fix-up with `mul'` — on the same stale unit.  `fuel` bounds the nesting depth; `none` = the
+    fuel ran out (Python: RecursionError).  Result: the factor the data were multiplied by. -/
+def fixupLoop (reenters : Bool) (pre : Prefixes K) (t : Lut K) (oldUnit : UnitV K) : Nat → K → Except Err (Option K)
+  | 0, _ => .ok none
+  | fuel + 1, mul =>
+    if mul == 1 then .ok (some 1)
+    else if !reenters then .ok (some mul)
+    else
+      match multiplyUnits pre t oldUnit UnitV.dimensionless with
+      | .error e => .error e
+      | .ok (mul', _) =>
+        match fixupLoop reenters pre t oldUnit fuel mul' with
+        | .error e => .error e
+        | .ok none => .ok none
+        | .ok (some f) => .ok (some (mul * f))
+
+/-- the fix-up as the code has it: which buffer is multiplied is read off the source on every run
+    (`Generated.C04.fixupReenters`); nesting depth 64 stands for Python's recursion limit -/
+def outFixup (pre : Prefixes K) (t : Lut K) (oldUnit : UnitV K) (mul : K) : Except Err (Option K) :=
+  fixupLoop Generated.C04.fixupReenters pre t oldUnit 64 mul
 
 /-- `unyt_array.dot(b)`: the unit is `self.units * b.units` (no simplification), the numbers
     are `ndarray.dot` of the raw data -/
